@@ -29,13 +29,13 @@ func (f *vFix) vProbeTarget() string {
 func H_C03_ProbeCursor() {
 	conf := vBaseConfig()
 	conf.GossipToTheDeadTime = 30 * time.Second
-	if vTier() == 1 {
-		vOpt("shuffle", 1)
-	}
 	f := vNewML(conf)
 	m := f.m
 	names := []string{vSelf, vPeerA, vPeerB, "n3"}
 	n := 2 + vPick(3)
+	if vTier() == 1 && n <= 3 {
+		vOpt("shuffle", 1) // thorough: an arbitrary permutation at every wrap (tables of up to 3 records)
+	}
 	live := map[string]bool{}
 	// arbitrary order: the local record at an arbitrary position
 	selfAt := vPick(n)
